@@ -106,7 +106,7 @@ func TestVerif_C17(t *testing.T) {
 	defer r.Write()
 	maxN := verifmc.Pick(5, 7)
 	maxReq := verifmc.Pick(2, 3)
-	r.Rule = fmt.Sprintf("every parent vector with up to %d nodes (node 0 = genesis) imported into a real BlockState with bodies and one state trie per block, then every sequence of up to %d finalisation requests (targets: every block of the tree and an unknown hash; rounds increasing) checked against a parent-map reference: success iff the target is a known proper descendant of the finalised head (re-finalising the head itself is not judged); a failed request changes nothing observable; after success every number up to the head resolves from the database to the canonical chain and every abandoned block is gone from the unfinalised map, GetHeader/HasHeader and Tries", maxN, maxReq)
+	r.Rule = fmt.Sprintf("every parent vector with up to %d nodes (node 0 = genesis) imported into a real BlockState with bodies and one state trie per block, then every sequence of up to %d finalisation requests (targets: every block of the tree and an unknown hash; rounds increasing) checked against a parent-map reference: success iff the target is a known proper descendant of the finalised head (re-finalising the head itself is not judged); a failed request changes nothing observable; after success every number up to the head resolves from the database to the canonical chain and every abandoned block is gone from the unfinalised map, GetHeader/HasHeader and Tries; after every successful finalisation a new child of every block that is no longer on the chain (abandoned, or an ancestor below the head) and every abandoned block itself is imported again: refused, nothing retained", maxN, maxReq)
 	type job struct {
 		parent []int
 		reqs   []int
@@ -254,6 +254,57 @@ func TestVerif_C17(t *testing.T) {
 				return
 			}
 			fin = target
+			// blocks that arrive AFTER the finalisation on what is no longer part of the chain: a child of
+			// every abandoned block / of every ancestor strictly below the head, and every abandoned block
+			// again.  They must be refused and leave nothing behind.
+			beforeLate := e.snapshot()
+			for x := 0; x < n; x++ {
+				if isAnc(fin, x) {
+					continue // head or its descendant: additions there are the block tree's business (C15, C16)
+				}
+				var late []*types.Header
+				dg := types.NewDigest()
+				pre, perr := types.NewBabePrimaryPreDigest(0, uint64(200+e.depth[x]), [sr25519.VRFOutputLength]byte{byte(x), 0x1a}, [sr25519.VRFProofLength]byte{}).ToPreRuntimeDigest()
+				if perr != nil {
+					panic(perr)
+				}
+				_ = dg.Add(*pre)
+				late = append(late, types.NewHeader(e.headers[x].Hash(), common.Hash{0x1a, byte(x)}, trie.EmptyHash, uint(e.depth[x]+1), dg))
+				if gone[x] {
+					late = append(late, e.headers[x])
+				}
+				for li, lh := range late {
+					mu.Lock()
+					trans++
+					mu.Unlock()
+					what := fmt.Sprintf("a new child of block %d", x)
+					if li == 1 {
+						what = fmt.Sprintf("abandoned block %d again", x)
+					}
+					err := e.bs.AddBlock(&types.Block{Header: *lh, Body: types.Body{types.Extrinsic{0x1a}}})
+					r.Outcome(fmt.Sprintf("late-import gone=%t err=%t", gone[x], err != nil))
+					var left []string
+					if err == nil {
+						left = append(left, "AddBlock succeeds")
+					}
+					if e.bs.unfinalisedBlocks.getBlock(lh.Hash()) != nil {
+						left = append(left, "kept in the unfinalised map")
+					}
+					if has, _ := e.bs.HasHeader(lh.Hash()); has {
+						left = append(left, "HasHeader true")
+					}
+					if _, gerr := e.bs.GetHeader(lh.Hash()); gerr == nil {
+						left = append(left, "GetHeader succeeds")
+					}
+					if after := e.snapshot(); after != beforeLate {
+						left = append(left, "observable state changed")
+					}
+					if len(left) > 0 {
+						r.Violate("late-import-on-abandoned-chain:not-discarded", fmt.Sprintf("%s: after finalising %d, importing %s: %v", label(step), target, what, left), replay)
+						return
+					}
+				}
+			}
 		}
 		if ji%4001 == 7 {
 			r.Sample(map[string]any{"parents": jb.parent, "requests": jb.reqs})
